@@ -9,6 +9,7 @@ import Verif.Lemmas.SkipBRBytes
 import Verif.Lemmas.SkipTplBufiox
 import Verif.Lemmas.SkipTplReader
 import Verif.Lemmas.SkipBenign
+import Verif.Lemmas.SkipTplDemand
 namespace Verif.C02
 
 /-- For every well-formed encoded value `v` of any type (nesting ≤ 64, i.e. up to 63 container
@@ -89,6 +90,33 @@ theorem skipBR_exact_fresh (v rest : Bytes) (script : List Resp) (t : UInt8)
     (newDefault_ok _ _ hsz) (live_newDefault _ _ hst) (newDefault_remaining _ _).1 h
   exact ⟨r', hx, hrem, by simpa [Rd.readLen, Rd.newDefault] using hlen⟩
 
+/-- … and over C04's generalised live sources `Rd.Live2` (`Live`, or a chunked script — chunks of ANY
+    size, an error only together with the last chunk — over a stream that fits the first buffer) -/
+theorem skipBR_exact_stream_live2 (r : Rd) (v rest : Bytes) (t : UInt8) (hok : RdOK r) (hl : r.Live2)
+    (hrem : r.remaining = v ++ rest) (h : refLen 64 t v = some v.length) :
+    ∃ r', skipBR t r = .ok ((), r') ∧ r'.remaining = rest ∧ r'.readLen = r.readLen + v.length ∧
+      RdOK r' ∧ r'.Live2 := by
+  have h1 := refLen_le_refBR 64 t _ _ (refLen_append h rest)
+  have h2 := skipBR_live2 r t hok hl
+  rw [hrem, defaultRecursionDepth_eq, h1] at h2
+  obtain ⟨r', hx, hrem', hlen, hok', hl'⟩ := h2
+  exact ⟨r', hx, by simpa using hrem', hlen, hok', hl'⟩
+
+/-- fresh `NewDefaultReader(src)` over a `SteadyChunks` script (e.g. ⟨4,nil⟩,⟨5,io.EOF⟩ for 9 bytes) -/
+theorem skipBR_exact_fresh_chunks (v rest : Bytes) (script : List Resp) (t : UInt8)
+    (hst : SteadyChunks Facts.defaultBufSize script (v ++ rest).length = true)
+    (h : refLen 64 t v = some v.length) :
+    ∃ r', skipBR t (Rd.newDefault ⟨v ++ rest, script⟩) = .ok ((), r') ∧ r'.remaining = rest ∧
+      r'.readLen = v.length := by
+  have hsz : (v ++ rest).length ≤ sizeBound := by
+    simp only [SteadyChunks, Bool.and_eq_true, decide_eq_true_eq] at hst
+    have := hst.1.1
+    have hB : Facts.defaultBufSize ≤ sizeBound := by decide
+    omega
+  obtain ⟨r', hx, hrem, hlen, _⟩ := skipBR_exact_stream_live2 (Rd.newDefault ⟨v ++ rest, script⟩) v rest t
+    (newDefault_ok _ _ hsz) (live2_newDefault_chunks _ _ hst) (newDefault_remaining _ _).1 h
+  exact ⟨r', hx, hrem, by simpa [Rd.readLen, Rd.newDefault] using hlen⟩
+
 /-- SkipDecoder (over bufiox.Reader) on a bytes-backed reader: returns exactly the bytes of `v`, the
     reader then owes exactly `rest`, ReadLen = |v|.  No size hypothesis. -/
 theorem bufioxDec_exact_bytes (v rest : Bytes) (t : UInt8) (cap : Nat) (hcap : (v ++ rest).length ≤ cap)
@@ -110,6 +138,16 @@ theorem bufioxDec_exact_stream (r : Rd) (v rest : Bytes) (t : UInt8) (hok : RdOK
       r'.readLen = r.readLen + v.length ∧ RdOK r' ∧ r'.Live := by
   have h1 := refLen_le_refTpl 64 t _ _ (refLen_append h rest)
   have h2 := bufioxDecNext_exact r t hok hl
+  rw [hrem, defaultRecursionDepth_eq, h1] at h2
+  obtain ⟨r', hx, hrem', hlen, hok', hl'⟩ := h2
+  exact ⟨r', by simpa using hx, by simpa using hrem', hlen, hok', hl'⟩
+
+theorem bufioxDec_exact_stream_live2 (r : Rd) (v rest : Bytes) (t : UInt8) (hok : RdOK r) (hl : r.Live2)
+    (hrem : r.remaining = v ++ rest) (h : refLen 64 t v = some v.length) :
+    ∃ r', bufioxDecNext r t = .ok (v, r') ∧ r'.remaining = rest ∧
+      r'.readLen = r.readLen + v.length ∧ RdOK r' ∧ r'.Live2 := by
+  have h1 := refLen_le_refTpl 64 t _ _ (refLen_append h rest)
+  have h2 := bufioxDecNext_exact2 r t hok hl
   rw [hrem, defaultRecursionDepth_eq, h1] at h2
   obtain ⟨r', hx, hrem', hlen, hok', hl'⟩ := h2
   exact ⟨r', by simpa using hx, by simpa using hrem', hlen, hok', hl'⟩
@@ -144,6 +182,62 @@ theorem verdict_live_covered (s : Src) (h : benign s = true) :
     Steady Facts.maxConsecutiveEmptyReads s.script s.stream.length 0 = true ∧
     Delivers s.script s.stream.length = true :=
   ⟨benign_steady s h, benign_delivers s h⟩
+
+/-- ReaderSkipDecoder, REQUEST-AWARE liveness (Spec/SkipDemand.lean): chunks of ANY size, and an error
+    may accompany any read whose data completes the decoder's current request (the final chunk
+    together with io.EOF in particular).  The decoder reads with exact room, so a scripted read
+    hands over `min(entry, missing, left)` bytes; `readerLive t stream script` replays exactly
+    that on lengths against the request sizes read off the grammar (`tplTrace`).  Then the decoder
+    returns exactly `v` and the source has been read exactly `|v|` bytes. -/
+theorem readerDec_exact_demand (src : Src) (v rest : Bytes) (t : UInt8) (hs : src.stream = v ++ rest)
+    (h : refLen 64 t v = some v.length) (hl : readerLive t src.stream src.script = true) :
+    ∃ src', readerDecNext src t = .ok (v, src') ∧ src'.stream = rest := by
+  have h1 := refLen_le_refTpl 64 t _ _ (refLen_append h rest)
+  rw [← hs] at h1
+  obtain ⟨src', hx, hrem⟩ := readerDecNext_demand src t v.length
+    (by rw [defaultRecursionDepth_eq]; exact h1) (by rw [defaultRecursionDepth_eq]; exact hl)
+  rw [hs] at hx hrem
+  exact ⟨src', by simpa using hx, by simpa using hrem⟩
+
+/-- TIE to the Tie-B verdict, widened flag: whenever the skip driver's `liveFor` (lean/Drv/Skip.lean:
+    `benign`, or `readerLive` for ReaderSkipDecoder, or C04's `SteadyChunks` for the buffered reader)
+    holds and the stream starts with a value of nesting ≤ 64, the facility succeeds with the grammar's
+    extent — so `bad:C02:rejected-valid` never demands more than is proved of the model. -/
+theorem verdict_must_succeed (impl : String) (t : UInt8) (b : Bytes) (s : List Resp) (n : Nat)
+    (hsz : b.length ≤ sizeBound) (h : refLen 64 t b = some n) (hl : liveFor impl t b s = true) :
+    (impl = "tplreader" → ∃ src', readerDecNext ⟨b, s⟩ t = .ok (b.take n, src') ∧ src'.stream = b.drop n) ∧
+    (impl ≠ "tplreader" →
+      (∃ r', skipBR t (Rd.newDefault ⟨b, s⟩) = .ok ((), r') ∧ r'.readLen = n) ∧
+      (∃ r', bufioxDecNext (Rd.newDefault ⟨b, s⟩) t = .ok (b.take n, r') ∧ r'.readLen = n)) := by
+  have hok := newDefault_ok b s hsz
+  obtain ⟨hr, hri⟩ := newDefault_remaining b s
+  simp only [liveFor, Bool.or_eq_true] at hl
+  constructor
+  · intro himpl
+    rcases hl with hb | hl
+    · have hd := benign_delivers ⟨b, s⟩ hb
+      have h2 := readerDecNext_exact ⟨b, s⟩ t hd
+      rw [defaultRecursionDepth_eq, refLen_le_refTpl 64 t b n h] at h2
+      obtain ⟨src', hx, hrem, _⟩ := h2
+      exact ⟨src', hx, hrem⟩
+    · simp only [himpl, beq_self_eq_true, if_true] at hl
+      exact readerDecNext_demand ⟨b, s⟩ t n
+        (by rw [defaultRecursionDepth_eq]; exact refLen_le_refTpl 64 t b n h)
+        (by rw [defaultRecursionDepth_eq]; exact hl)
+  · intro himpl
+    have hlive : (Rd.newDefault ⟨b, s⟩).Live2 := by
+      rcases hl with hb | hl
+      · exact Or.inl (live_newDefault b s (benign_steady ⟨b, s⟩ hb))
+      · have : (impl == "tplreader") = false := by simpa using himpl
+        simp only [this, Bool.false_eq_true, if_false] at hl
+        exact live2_newDefault_chunks b s hl
+    have h1 := skipBR_live2 _ t hok hlive
+    have h2 := bufioxDecNext_exact2 _ t hok hlive
+    rw [hr, defaultRecursionDepth_eq, refLen_le_refBR 64 t b n h] at h1
+    rw [hr, defaultRecursionDepth_eq, refLen_le_refTpl 64 t b n h] at h2
+    obtain ⟨r1, hx1, _, hl1, _⟩ := h1
+    obtain ⟨r2, hx2, _, hl2, _⟩ := h2
+    exact ⟨⟨r1, hx1, by simpa [Rd.readLen, hri] using hl1⟩, ⟨r2, hx2, by simpa [Rd.readLen, hri] using hl2⟩⟩
 
 /-- the io.EOF-with-final-data clause, spelled out: the value is the whole stream and its last byte
     arrives together with io.EOF — the decoder returns the value, not io.EOF (defect F9) -/
@@ -184,6 +278,20 @@ example : ∃ src', readerDecNext ⟨[8, 11, 0,0,0,1, 0,0,0,7, 0,0,0,1, 65] ++ [
     = .ok ([8, 11, 0,0,0,1, 0,0,0,7, 0,0,0,1, 65], src') ∧ src'.stream = [1, 2] ∧
       Delivers src'.script src'.stream.length = true :=
   readerDec_exact ⟨_, exScript⟩ _ [1, 2] TT.MAP (by decide) rfl (by decide)
+
+/-- chunked scripts with the final chunk together with io.EOF: live for the plain reader when the
+    chunks line up with the decoder's requests (4 + 5), not when they do not (2 + 7: the second read
+    asks for 2 bytes, gets them with io.EOF, and the remaining 5 bytes never arrive) -/
+example : readerLive TT.STRING [0,0,0,5, 1,2,3,4,5] [⟨4, none⟩, ⟨5, some .eof⟩] = true := by decide
+example : readerLive TT.STRING [0,0,0,5, 1,2,3,4,5] [⟨2, none⟩, ⟨7, some .eof⟩] = false := by decide
+example : readerDecNext ⟨[0,0,0,5, 1,2,3,4,5], [⟨2, none⟩, ⟨7, some .eof⟩]⟩ TT.STRING = .err (.raw .eof) := by
+  decide
+example : ∃ src', readerDecNext ⟨[0,0,0,5, 1,2,3,4,5] ++ [9], [⟨4, none⟩, ⟨5, some .eof⟩]⟩ TT.STRING
+    = .ok ([0,0,0,5, 1,2,3,4,5], src') ∧ src'.stream = [9] :=
+  readerDec_exact_demand ⟨_, _⟩ _ [9] TT.STRING rfl (by decide) (by decide)
+example : ∃ r', skipBR TT.STRING (Rd.newDefault ⟨[0,0,0,5, 1,2,3,4,5] ++ [], [⟨4, none⟩, ⟨5, some .eof⟩]⟩)
+    = .ok ((), r') ∧ r'.remaining = [] ∧ r'.readLen = 9 :=
+  skipBR_exact_fresh_chunks _ [] _ TT.STRING (by decide) (by decide)
 
 /-- the F9 witness evaluated on the model: STRING "A" whose last byte arrives with io.EOF -/
 example : readerDecNext ⟨[0,0,0,1, 65], [⟨4, none⟩, ⟨1, some .eof⟩]⟩ TT.STRING
